@@ -320,6 +320,7 @@ pub struct Ctx {
     pub count_forms: bool,
     pub canary: Option<Canary>,
     pub canary_fired: u64,
+    wlog: Vec<u32>,
 }
 
 /// Built-in self-test of the comparison: perturb the reference for selected cases and require a mismatch.
@@ -355,6 +356,7 @@ impl Ctx {
             count_forms: true,
             canary: None,
             canary_fired: 0,
+            wlog: Vec::with_capacity(64),
         }
     }
 
@@ -434,6 +436,7 @@ impl Ctx {
         cpu.vh_set_pc(c.pc);
         cpu.vh_set_ccr(c.ccr);
         let kind = c.kind;
+        crate::cpu::verif_hooks::bus_write_log_enable(true);
         let r = catch_unwind(AssertUnwindSafe(|| match kind {
             Kind::Step => cpu.vh_step(),
             Kind::Irq(v) => {
@@ -442,6 +445,8 @@ impl Ctx {
                 cpu.vh_try_interrupt().map(|_| 0u8)
             }
         }));
+        crate::cpu::verif_hooks::bus_write_log_take(&mut self.wlog);
+        crate::cpu::verif_hooks::bus_write_log_enable(false);
         match r {
             Ok(Ok(s)) => Actual::Ok(s),
             Ok(Err(e)) => Actual::Err(format!("{:#}", e).chars().take(200).collect()),
@@ -569,6 +574,7 @@ impl Ctx {
             diff = None;
         }
         let mut explained: Option<String> = None;
+        let mut ro_expl: Option<RefOut> = None;
         if diff.is_some() && !self.known_keys.is_empty() {
             // does a listed defect model reproduce exactly this behaviour?
             let keys = self.known_keys.clone();
@@ -578,7 +584,11 @@ impl Ctx {
                     panic_explained_fetch(&ro, &act)
                 } else {
                     let (_, ro2) = self.reference(c, &d);
-                    self.compare(c, &ro2, &act).is_none()
+                    let ok = self.compare(c, &ro2, &act).is_none();
+                    if ok {
+                        ro_expl = Some(ro2);
+                    }
+                    ok
                 };
                 if ok {
                     explained = Some(k.clone());
@@ -592,6 +602,7 @@ impl Ctx {
                 let (_, ro2) = self.reference(c, &d);
                 if self.compare(c, &ro2, &act).is_none() {
                     explained = Some(keys.join("+"));
+                    ro_expl = Some(ro2);
                 }
             }
         }
@@ -679,23 +690,67 @@ impl Ctx {
             }
         }
         // ---- memory: accept predicted writes, then look for stray ones
+        // (under a listed defect model the model's write set is the accepted one)
+        if let Some(r2) = ro_expl {
+            for w in r2.writes.as_slice() {
+                self.m.mark_dirty(w.addr);
+            }
+            for w in ro.writes.as_slice() {
+                self.m.mark_dirty(w.addr);
+            }
+            ro = r2;
+        }
         for w in ro.writes.as_slice() {
             self.m.accept(w.addr);
         }
-        let executed_open = ro.class == Class::Any && ro.mem_open && matches!(act, Actual::Ok(_));
+        // exact attribution through the Bus::write address log (hook H7): every address the
+        // implementation wrote in this step must be in the reference's write set
+        let open = ro.class == Class::Any && ro.mem_open;
+        let mut k = 0;
+        while k < self.wlog.len() {
+            let a = self.wlog[k];
+            k += 1;
+            if ro.writes.as_slice().iter().any(|w| w.addr == a) {
+                continue;
+            }
+            let got = self.m.peek(a);
+            let exp = self.m.peek_shadow(a);
+            if got.is_none() || got == exp {
+                continue; // rejected by the bus, or rewritten with the value it already had
+            }
+            if !open && !self.frozen && !canary_on {
+                self.st.violations_total += 1;
+                if self.st.violations.len() < MAX_VIOLATIONS_KEPT {
+                    self.st.violations.push(Violation {
+                        unit: self.unit.clone(),
+                        what: format!("stray memory write: [{:06x}] is {:02x}, must stay {:02x}", a, got.unwrap_or(0), exp.unwrap_or(0)),
+                        case: c.to_json(),
+                        expected: self.expected_json(&ro),
+                        actual: self.actual_json(&ro, &act),
+                    });
+                }
+                if self.st.violations_total >= MAX_VIOLATIONS_PER_UNIT {
+                    self.stop = true;
+                }
+            }
+            // put the byte back so that later cases start from the pristine image
+            let v = exp.unwrap_or(0);
+            if let Some(s) = self.m.real_slot(a) {
+                *s = v;
+            }
+        }
         self.since_full += 1;
         if self.paranoid {
+            // locating re-run after the write log missed something (a write that bypassed Bus::write)
             if let Some(a) = self.m.full_compare() {
-                // exact attribution: this very case wrote `a` although the reference does not allow it
-                if !(ro.class == Class::Any && ro.mem_open) && self.frozen {
-                    // (frozen = we are in the locating re-run; statistics were taken in the first pass)
+                if !open {
                     self.st.violations_total += 1;
                     if self.st.violations.len() < MAX_VIOLATIONS_KEPT {
                         let got = self.m.peek(a).unwrap_or(0);
                         let exp = self.m.peek_shadow(a).unwrap_or(0);
                         self.st.violations.push(Violation {
                             unit: self.unit.clone(),
-                            what: format!("stray memory write: [{:06x}] is {:02x}, must stay {:02x}", a, got, exp),
+                            what: format!("stray memory write (not through Bus::write): [{:06x}] is {:02x}, must stay {:02x}", a, got, exp),
                             case: c.to_json(),
                             expected: self.expected_json(&ro),
                             actual: self.actual_json(&ro, &act),
@@ -707,7 +762,7 @@ impl Ctx {
                 }
                 self.m.resync_from_shadow();
             }
-        } else if executed_open || self.m.stray.is_some() || self.since_full >= FULL_COMPARE_EVERY {
+        } else if self.m.stray.is_some() || self.since_full >= FULL_COMPARE_EVERY {
             self.checkpoint();
         }
         self.m.restore();
